@@ -22,6 +22,10 @@ func init() {
 }
 
 func runC17(c *Ctx) {
+	defer func() {
+		c.Rule("C17.19", "a database that is selected again continues where it stopped: the file-header codec (fileStore.save / fileStore.open) is symmetric — every counter save writes, open reads back (C02.8)")
+		checkCodecPair(c, "C17.19", "storage.(*fileStore).save", "storage.(*fileStore).open")
+	}()
 	c17Paths(c, "C17.1")
 	c17Use(c, "C17.2")
 	c17Existence(c, "C17.3")
